@@ -675,7 +675,15 @@ class RunMonitor(H.NullMonitor):
                 self.viol("C12", "finish.after_deadline",
                           f"{sh.key} completed at {t} > deadline {dl} under "
                           f"{self.policy} with deadline enforcement (started {s}, "
-                          f"decided for {sh.decided_t})")
+                          f"decided for {sh.decided_t})",
+                          has_predecessors=bool(sh.node is not None
+                                                and sh.node.parents),
+                          started_after_decided=bool(sh.decided_t is not None
+                                                     and s is not None
+                                                     and s > sh.decided_t),
+                          planned_completion_by_deadline=bool(
+                              sh.decided_t is not None and sh.runtime is not None
+                              and sh.decided_t + sh.runtime <= dl))
         self.stat("finishes")
 
     def _check_placement_attempt(self, sim, ev):
